@@ -1,7 +1,8 @@
 --------------------------- MODULE MiniDyn ---------------------------
 (* The database behind a minidyn client, as the properties in properties.jsonl describe it.
 
-   State   db : client id -> [tables : table name -> Table, fail : "none" | "internal" | "deprecated"]
+   State   db : client id -> [tables : table name -> Table, fail : "none" | "internal" | "deprecated",
+                              native : [active : BOOLEAN, regs : SET of registrations]]        (C20)
            Table = [hash  : [n, ty],  range : [some, n, ty],  defs : attribute name -> scalar type,
                     idx   : index name -> [kind : "g" | "l", hash : name, range : [some, n], proj : string],
                     items : SET of items,          (an item is a function attribute name -> value)
@@ -18,7 +19,7 @@
 EXTENDS Expr
 
 Clients == {"c1", "c2"}
-EmptyClient == [tables |-> <<>>, fail |-> "none"]
+EmptyClient == [tables |-> <<>>, fail |-> "none", native |-> [active |-> FALSE, regs |-> {}]]
 InitDB == [c \in Clients |-> EmptyClient]
 
 GenErr  == {"validation", "syntax", "unsupported", "other", "panic_syntax"}
@@ -57,6 +58,26 @@ WithoutTable(db, c, t) == [db EXCEPT ![c].tables = [n \in (DOMAIN db[c].tables) 
 (* placeholder discipline (C16): every supplied #name / :value is used, every used one is supplied *)
 CondPart(cond) == IF cond.some THEN cond.ast ELSE [k |-> "none"]
 PlaceholdersOK(usedN, usedV, names, values) == usedN = DOMAIN names /\ usedV = DOMAIN values
+
+----------------------------------------------------------------------------
+(* native interpreter (C20): Go callbacks registered per (table, expression kind, expression text up to surrounding and
+   repeated whitespace).  A registered matcher decides instead of the built-in interpreter; without one the built-in
+   interpreter decides; an update without a registered updater is an unsupported-feature error.               *)
+IsBlank(c) == c \in {32, 9, 10, 13}
+RECURSIVE Collapse(_,_)
+Collapse(b, prevBlank) == IF b = <<>> THEN <<>>
+                          ELSE IF IsBlank(Head(b)) THEN (IF prevBlank THEN Collapse(Tail(b), TRUE) ELSE <<32>> \o Collapse(Tail(b), TRUE))
+                          ELSE <<Head(b)>> \o Collapse(Tail(b), FALSE)
+NormWS(b) == LET c == Collapse(b, TRUE) IN IF c # <<>> /\ c[Len(c)] = 32 THEN SubSeq(c, 1, Len(c) - 1) ELSE c
+RegsFor(cl, t, kind, text) == IF ~cl.native.active THEN {} ELSE { g \in cl.native.regs : g.t = t /\ g.kind = kind /\ g.text = NormWS(text) }
+HasText(e, f) == f \in DOMAIN e
+\* outcome of a write condition: decided by a registered matcher if there is one, else by the language
+CondDecision(cl, e, stored) ==
+  IF ~e.cond.some THEN {"T"}
+  ELSE LET gs == IF HasText(e, "condtext") THEN RegsFor(cl, e.t, "conditional", e.condtext) ELSE {}
+       IN IF gs # {} THEN { IF g.verdict THEN "T" ELSE "F" : g \in gs }
+          ELSE CondOut(e.cond.ast, stored, e.names, e.values)
+CondRegs(cl, e) == IF e.cond.some /\ HasText(e, "condtext") THEN RegsFor(cl, e.t, "conditional", e.condtext) ELSE {}
 
 ----------------------------------------------------------------------------
 (* key conditions (C16 / C02): hash = :v  [AND one sort-key condition] *)
@@ -106,6 +127,12 @@ ReadValid(tbl, q) ==
 ReadMatchO(q, it) ==
   AndO(IF q.kind = "query" THEN CondOut(q.kc, it, q.names, q.values) ELSE {"T"},
        IF q.filter.some THEN CondOut(q.filter.ast, it, q.names, q.values) ELSE {"T"})
+\* the same with the client's native registrations taken into account
+ReadMatchN(cl, q, it) ==
+  LET kgs == IF q.kind = "query" /\ HasText(q, "kctext") THEN RegsFor(cl, q.t, "key", q.kctext) ELSE {}
+      fgs == IF q.filter.some /\ HasText(q, "filtertext") THEN RegsFor(cl, q.t, "filter", q.filtertext) ELSE {}
+  IN AndO(IF q.kind # "query" THEN {"T"} ELSE IF kgs # {} THEN { IF g.verdict THEN "T" ELSE "F" : g \in kgs } ELSE CondOut(q.kc, it, q.names, q.values),
+          IF ~q.filter.some THEN {"T"} ELSE IF fgs # {} THEN { IF g.verdict THEN "T" ELSE "F" : g \in fgs } ELSE CondOut(q.filter.ast, it, q.names, q.values))
 
 BatchWriteValid(reqs) == /\ Len(reqs) <= 25
                          /\ \A i \in DOMAIN reqs : reqs[i].put.some # reqs[i].del.some
@@ -205,7 +232,7 @@ Plan(db, e) ==
                                               IF e.cond.some THEN CondVals(e.cond.ast) ELSE {}, e.names, e.values)
                             /\ KeyTypeOK(tbl, e.item) /\ IdxKeysTyped(tbl, e.item) /\ ItemValid(e.item)
               IN IF ~static THEN Refuse(db, GenErr)
-                 ELSE LET O == IF e.cond.some THEN CondOut(e.cond.ast, StoredOrEmpty(tbl, e.item), e.names, e.values) ELSE {"T"}
+                 ELSE LET O == CondDecision(cl, e, StoredOrEmpty(tbl, e.item))
                       IN [ocs |-> OutcomeOfCond(O), cls |-> GenErr,
                           next |-> WithTable(db, e.c, e.t, PutInto(tbl, e.item))]
 
@@ -216,7 +243,7 @@ Plan(db, e) ==
                                               IF e.cond.some THEN CondVals(e.cond.ast) ELSE {}, e.names, e.values)
                             /\ ValidKeyArg(tbl, e.key)
               IN IF ~static THEN Refuse(db, GenErr)
-                 ELSE LET O == IF e.cond.some THEN CondOut(e.cond.ast, StoredOrEmpty(tbl, e.key), e.names, e.values) ELSE {"T"}
+                 ELSE LET O == CondDecision(cl, e, StoredOrEmpty(tbl, e.key))
                       IN [ocs |-> OutcomeOfCond(O), cls |-> GenErr,
                           next |-> WithTable(db, e.c, e.t, DelFrom(tbl, e.key))]
 
@@ -229,9 +256,12 @@ Plan(db, e) ==
                             /\ ValidKeyArg(tbl, e.key)
               IN IF ~static THEN Refuse(db, GenErr)
                  ELSE LET old == StoredOrEmpty(tbl, e.key)
-                          O   == IF e.cond.some THEN CondOut(e.cond.ast, old, e.names, e.values) ELSE {"T"}
+                          O   == CondDecision(cl, e, old)
                           base == IF Lookup(tbl, e.key) = {} THEN e.key ELSE old
-                          res == ApplyU(e.upd, base, e.names, e.values, KeyAttrs(tbl))
+                          ugs == IF HasText(e, "updtext") THEN RegsFor(cl, e.t, "update", e.updtext) ELSE {}
+                          res == IF ~cl.native.active THEN ApplyU(e.upd, base, e.names, e.values, KeyAttrs(tbl))
+                                 ELSE IF ugs = {} THEN [ok |-> FALSE, item |-> base]       \* unsupported feature: no updater registered
+                                 ELSE LET g == CHOOSE x \in ugs : TRUE IN [ok |-> TRUE, item |-> [a \in {g.attr} |-> g.val] @@ base]
                           good == res.ok /\ ItemValid(res.item) /\ IdxKeysTyped(tbl, res.item)
                       IN [ocs |-> (IF "T" \in O THEN (IF good THEN {"ok"} ELSE {"err"}) ELSE {})
                                   \cup (IF "F" \in O THEN (IF good THEN {"ccf"} ELSE {"ccf", "err"}) ELSE {})
@@ -249,7 +279,7 @@ Plan(db, e) ==
          IF e.t \notin DOMAIN cl.tables THEN Refuse(db, {"rnf"} \cup GenErr)
          ELSE LET tbl == cl.tables[e.t] IN
               IF ~ReadValid(tbl, e) THEN Refuse(db, GenErr)
-              ELSE LET O == UNION { ReadMatchO(e, it) : it \in Target(tbl, e.index).view }
+              ELSE LET O == UNION { ReadMatchN(cl, e, it) : it \in Target(tbl, e.index).view }
                    IN [ocs |-> (IF "E" \in O THEN {"err"} ELSE {}) \cup (IF O # {"E"} THEN {"ok"} ELSE {}),
                        cls |-> GenErr, next |-> db]
 
@@ -269,6 +299,16 @@ Plan(db, e) ==
          ELSE Ok(db)
 
     [] e.op = "Transact" -> Ok(db)
+
+    [] e.op = "NativeActivate" -> Ok([db EXCEPT ![e.c].native.active = TRUE])
+    [] e.op = "AddMatcher" ->
+         LET g == [t |-> e.t, kind |-> e.mkind, text |-> NormWS(e.text), id |-> e.id, verdict |-> e.verdict]
+             keep == { x \in cl.native.regs : ~(x.t = g.t /\ x.kind = g.kind /\ x.text = g.text) }
+         IN Ok([db EXCEPT ![e.c].native.regs = keep \cup {g}])
+    [] e.op = "AddUpdater" ->
+         LET g == [t |-> e.t, kind |-> "update", text |-> NormWS(e.text), id |-> e.id, attr |-> e.attr, val |-> e.val]
+             keep == { x \in cl.native.regs : ~(x.t = g.t /\ x.kind = g.kind /\ x.text = g.text) }
+         IN Ok([db EXCEPT ![e.c].native.regs = keep \cup {g}])
 
     \* C14: a scenario in which the CALLER overwrites its own memory (request structures after the call returned, response
     \* structures it received); for the database those writes are stuttering steps, so the state after the probe is the
@@ -302,7 +342,12 @@ SortedBy(seq, attr, fwd) ==
      IN (a.t = b.t /\ a.t \in ScalarOrd) => (IF fwd THEN VLeq(a, b) ELSE VLeq(b, a))
 
 \* unpaginated Query / Scan (no Limit, no ExclusiveStartKey)
+MatchSetN(cl, tbl, q) == { it \in Target(tbl, q.index).view : ReadMatchN(cl, q, it) = {"T"} }
 MatchSet(tbl, q) == { it \in Target(tbl, q.index).view : ReadMatchO(q, it) = {"T"} }
+ReadAllOKN(cl, tbl, q, r) ==
+  /\ EnumOf(r.items, MatchSetN(cl, tbl, q))
+  /\ r.count = Len(r.items)
+  /\ (q.kind = "query" /\ Target(tbl, q.index).range.some) => SortedBy(r.items, Target(tbl, q.index).range.n, q.fwd)
 ReadAllOK(tbl, q, r) ==
   /\ EnumOf(r.items, MatchSet(tbl, q))
   /\ r.count = Len(r.items)
@@ -362,6 +407,18 @@ IdxProjOK(tbl, d) ==
   LET all == d.gsis \o d.lsis IN
   \A i \in DOMAIN all : all[i].name \in DOMAIN tbl.idx => all[i].proj = tbl.idx[all[i].name].proj
 
+\* C20: only registrations made for exactly this table, kind and text may run; the one that decides must have run
+FiredFails(db, e, r) ==
+  IF "fired" \notin DOMAIN r THEN {} ELSE
+  LET cl == db[e.c]
+      allowed == (IF e.op \in {"PutItem", "UpdateItem", "DeleteItem"} THEN CondRegs(cl, e) ELSE {})
+                 \cup (IF e.op = "UpdateItem" /\ HasText(e, "updtext") THEN RegsFor(cl, e.t, "update", e.updtext) ELSE {})
+                 \cup (IF e.op \in {"Query", "Scan"} /\ e.kind = "query" /\ HasText(e, "kctext") THEN RegsFor(cl, e.t, "key", e.kctext) ELSE {})
+                 \cup (IF e.op \in {"Query", "Scan"} /\ e.filter.some /\ HasText(e, "filtertext") THEN RegsFor(cl, e.t, "filter", e.filtertext) ELSE {})
+      must == IF e.op \in {"PutItem", "UpdateItem", "DeleteItem"} /\ r.err \in {"none", "ccf"} THEN { g.id : g \in CondRegs(cl, e) } ELSE {}
+  IN (IF { r.fired[i] : i \in DOMAIN r.fired } \subseteq { g.id : g \in allowed } THEN {} ELSE {"CrossFire"})
+     \cup (IF must \subseteq { r.fired[i] : i \in DOMAIN r.fired } THEN {} ELSE {"NotDispatched"})
+
 \* names of the parts of RespOK that fail; r is one SDK's normalised response
 RespFails(db, e, r, sdk) ==
   LET pl == Plan(db, e)
@@ -369,6 +426,7 @@ RespFails(db, e, r, sdk) ==
       cl == db[e.c]
       tbl == cl.tables[e.t]
   IN
+  FiredFails(db, e, r) \cup
   (IF r.err = "crash" /\ "crash" \notin pl.cls THEN {"NoCrash"} ELSE {})
   \cup (IF oc \notin pl.ocs /\ r.err # "crash" THEN {"Outcome"} ELSE {})
   \cup (IF oc = "err" /\ "err" \in pl.ocs /\ r.err # "crash" /\ r.err \notin pl.cls THEN {"ErrClass"} ELSE {})
@@ -382,7 +440,7 @@ RespFails(db, e, r, sdk) ==
                [] e.op \in {"PutItem", "DeleteItem", "UpdateItem"} /\ oc = "ccf" /\ e.rvf /\ sdk = 2 ->   \* SDK v1.40 has no such request field
                     IF OptItemIs(r.ccfitem, Lookup(tbl, IF e.op = "PutItem" THEN e.item ELSE e.key)) THEN {} ELSE {"CcfItem"}
                [] e.op \in {"Query", "Scan"} /\ oc = "ok" ->
-                    IF (IF ~e.limit.some /\ ~e.esk.some THEN ReadAllOK(tbl, e, r) ELSE PageOK(tbl, e, r)) THEN {} ELSE {"Data"}
+                    IF (IF ~e.limit.some /\ ~e.esk.some THEN ReadAllOKN(cl, tbl, e, r) ELSE PageOK(tbl, e, r)) THEN {} ELSE {"Data"}
                [] e.op = "Walk" /\ oc = "ok" ->
                     IF WalkOK(tbl, e, r) THEN {} ELSE {"Data"}
                [] e.op = "DescribeTable" /\ oc = "ok" ->
